@@ -1012,6 +1012,26 @@ def mio_summaries():
             return f
         return deco
 
+    @reg(r'^<(mio::)?Token as PartialEq>::(eq|ne)$')
+    def tok_eq(ex, st, fn, argv):
+        a, b = deref(ex, st, argv[0]), deref(ex, st, argv[1])
+        e = a.fields[0].bv == b.fields[0].bv
+        return [(st, Bool(e if fn.endswith('eq') else z3.Not(e)))]
+
+    @reg(r'^<(mio::)?Token as (PartialOrd|Ord)>::(lt|le|gt|ge)$')
+    def tok_cmp(ex, st, fn, argv):
+        a, b = deref(ex, st, argv[0]).fields[0].bv, deref(ex, st, argv[1]).fields[0].bv
+        op = {'lt': z3.ULT, 'le': z3.ULE, 'gt': z3.UGT, 'ge': z3.UGE}[fn.split('::')[-1]]
+        return [(st, Bool(op(a, b)))]
+
+    @reg(r'^<(mio::)?Token as From<usize>>::from$')
+    def tok_from(ex, st, fn, argv):
+        return [(st, Agg({0: argv[0]}, 'mio::Token'))]
+
+    @reg(r'^<usize as From<(mio::)?Token>>::from$')
+    def tok_into(ex, st, fn, argv):
+        return [(st, deref(ex, st, argv[0]).fields[0])]
+
     @reg(r'^(mio::)?Ready::readable$')
     def r_readable(ex, st, fn, argv):
         return [(st, mk_ready(READABLE))]
